@@ -42,6 +42,10 @@ def variants(algo, tier):
         out.append(("fixed-0-and-last", {"init": "svd", "fixed_modes": "0,LAST"}, 2 if q else 5, False))
         out.append(("fixed-mode0-normalize", {"init": "random", "fixed_modes": [0], "normalize_factors": True}, 3 if q else 6, False))
         out.append(("rec_error-criterion", {"init": "svd", "cvg_criterion": "rec_error"}, 3 if q else 6, False))
+        out.append(("callback-stops-run", {"init": "random", "_cb_stop": 3}, 5 if q else 7, False))
+        out.append(("callback-stops-run-normalize", {"init": "svd", "normalize_factors": True, "_cb_stop": 2}, 4 if q else 6, False))
+        out.append(("mask-sparsity", {"init": "random", "mask": "MASK", "sparsity": 0.25}, 3 if q else 5, True))
+        out.append(("mask-sparsity-int", {"init": "svd", "mask": "MASK", "sparsity": 3}, 3 if q else 5, True))
         out.append(("fixed-negative-index", {"init": "random", "fixed_modes": [-1]}, 3 if q else 5, False))
         out.append(("fixed-negative-index-2", {"init": "svd", "fixed_modes": [-2]}, 3 if q else 5, False))
         # second tensor-algebra implementation (tl.tenalg backend 'einsum'): a configuration like any other
@@ -189,7 +193,8 @@ def true_error(algo, X, res, cfg, prevM=None):
         # CP imputes the missing entries with the current iterate, HOOI with the iterate the sweep started from
         fill = prevM if (algo == "tucker" and prevM is not None) else M
         imputed = X * mask + fill * (1 - mask)
-        return float(np.linalg.norm(imputed - M) / np.linalg.norm(imputed))
+        S = np.asarray(res.extra["sparse"]) if (cfg.get("sparsity") and res.extra.get("sparse") is not None) else 0.0
+        return float(np.linalg.norm(imputed - M - S) / np.linalg.norm(imputed))
     if cfg.get("sparsity"):
         S = np.asarray(res.extra["sparse"])
         return float(np.linalg.norm(X - M - S) / np.linalg.norm(X))
@@ -263,6 +268,9 @@ class C06(Check):
                     sp = None
                 _store.append((None if cp[0] is None else np.array(cp[0], copy=True), [np.array(f, copy=True) for f in cp[1]],
                                None if sp is None else np.array(sp, copy=True), float(np.real(err))))
+                if stop_at is not None and len(_store) >= stop_at:
+                    return True  # the documented way for a callback to end the run
+            stop_at = cfg.pop("_cb_stop", None)
             cfg["callback"] = cb
 
         def go(n_iter, tol=None):
